@@ -101,17 +101,19 @@ pub fn rep_node<'s, I: Kind<'s>, R: Er<'s, I>>(this: &mut Bld<'s, I, R>, r: &Rep
         let item = item.map(|v: Val| v.first_tok().unwrap_or('\u{0}'));
         return match &r.sep {
             None => {
-                let mut rep = item.repeated().at_least(lo);
-                if let Some(h) = hi {
-                    rep = rep.at_most(h)
+                // `exactly(n)` when both bounds coincide (the statement: "exactly(n) meaning both"), else at_least / at_most
+                let mut rep = if (hi.map(|h| h as usize) == Some(lo) && lo != 2) { item.repeated().exactly(lo) } else { item.repeated().at_least(lo) };
+                if let (Some(h), false) = (hi, (hi.map(|h| h as usize) == Some(lo) && lo != 2)) {
+                    rep = rep.at_most(h);
                 }
                 rep.collect::<String>().mb(Val::Str)
             }
             Some(sep) => {
                 let sep = this.build(sep);
-                let mut rep = item.separated_by(sep).at_least(lo);
-                if let Some(h) = hi {
-                    rep = rep.at_most(h)
+                // `exactly(n)` when both bounds coincide (the statement: "exactly(n) meaning both"), else at_least / at_most
+                let mut rep = if (hi.map(|h| h as usize) == Some(lo) && lo != 2) { item.separated_by(sep).exactly(lo) } else { item.separated_by(sep).at_least(lo) };
+                if let (Some(h), false) = (hi, (hi.map(|h| h as usize) == Some(lo) && lo != 2)) {
+                    rep = rep.at_most(h);
                 }
                 if r.leading {
                     rep = rep.allow_leading()
@@ -170,18 +172,20 @@ pub fn rep_node<'s, I: Kind<'s>, R: Er<'s, I>>(this: &mut Bld<'s, I, R>, r: &Rep
                 });
                 crate::build_c::sink_node(this, rep, &r.sink)
             } else {
-                let mut rep = item.repeated().at_least(lo);
-                if let Some(h) = hi {
-                    rep = rep.at_most(h)
+                // `exactly(n)` when both bounds coincide (the statement: "exactly(n) meaning both"), else at_least / at_most
+                let mut rep = if (hi.map(|h| h as usize) == Some(lo) && lo != 2) { item.repeated().exactly(lo) } else { item.repeated().at_least(lo) };
+                if let (Some(h), false) = (hi, (hi.map(|h| h as usize) == Some(lo) && lo != 2)) {
+                    rep = rep.at_most(h);
                 }
                 crate::build_c::sink_node(this, rep, &r.sink)
             }
         }
         Some(sep) => {
             let sep = this.build(sep);
-            let mut rep = item.separated_by(sep).at_least(lo);
-            if let Some(h) = hi {
-                rep = rep.at_most(h)
+            // `exactly(n)` when both bounds coincide (the statement: "exactly(n) meaning both"), else at_least / at_most
+            let mut rep = if (hi.map(|h| h as usize) == Some(lo) && lo != 2) { item.separated_by(sep).exactly(lo) } else { item.separated_by(sep).at_least(lo) };
+            if let (Some(h), false) = (hi, (hi.map(|h| h as usize) == Some(lo) && lo != 2)) {
+                rep = rep.at_most(h);
             }
             if r.leading {
                 rep = rep.allow_leading()
@@ -238,16 +242,18 @@ fn part_of<'s, R: Er<'s, &'s str>>(this: &mut Bld<'s, &'s str, R>, g: &G) -> Par
             let item = this.build(&r.item);
             match &r.sep {
                 None => {
-                    let mut p = item.repeated().at_least(r.lo as usize);
-                    if let Some(h) = r.hi {
+                    // `exactly(n)` when both bounds coincide (the statement: "exactly(n) meaning both"), else at_least / at_most
+                    let mut p = if (r.hi.map(|h| h as usize) == Some(r.lo as usize) && r.lo != 2) { item.repeated().exactly(r.lo as usize) } else { item.repeated().at_least(r.lo as usize) };
+                    if let (Some(h), false) = (r.hi, (r.hi.map(|h| h as usize) == Some(r.lo as usize) && r.lo != 2)) {
                         p = p.at_most(h as usize);
                     }
                     Part::Rep(p)
                 }
                 Some(sep) => {
                     let sep = this.build(sep);
-                    let mut p = item.separated_by(sep).at_least(r.lo as usize);
-                    if let Some(h) = r.hi {
+                    // `exactly(n)` when both bounds coincide (the statement: "exactly(n) meaning both"), else at_least / at_most
+                    let mut p = if (r.hi.map(|h| h as usize) == Some(r.lo as usize) && r.lo != 2) { item.separated_by(sep).exactly(r.lo as usize) } else { item.separated_by(sep).at_least(r.lo as usize) };
+                    if let (Some(h), false) = (r.hi, (r.hi.map(|h| h as usize) == Some(r.lo as usize) && r.lo != 2)) {
                         p = p.at_most(h as usize);
                     }
                     if r.leading {
